@@ -160,6 +160,9 @@ def lit_items(lits: List[dict]) -> List[Tuple[int, dict]]:
     return out
 
 
+ASM_BUDGET_S = 40.0
+
+
 def _assemble_group(args):
     gid, items = args
     par.fjm_run()
@@ -174,13 +177,17 @@ def _assemble_group(args):
         fj = d / "e.fj"
         fj.write_text(src)
         out = d / "e.fjm"
-        try:
-            flipjump.assemble([fj], out, memory_width=W, use_stl=False, print_time=False, warning_as_errors=True)
-            err = None
-        except FlipJumpException as e:
-            err = ("fjexc", type(e).__name__, str(e)[:300])
-        except BaseException as e:  # noqa: BLE001
-            err = ("raw", type(e).__name__, str(e)[:300])
+        with engines._Alarm(ASM_BUDGET_S) as alarm:         # every run of the code under test is bounded
+            try:
+                flipjump.assemble([fj], out, memory_width=W, use_stl=False, print_time=False, warning_as_errors=True)
+                err = None
+            except FlipJumpException as e:
+                err = ("fjexc", type(e).__name__, str(e)[:300])
+            except BaseException as e:  # noqa: BLE001
+                err = ("raw", type(e).__name__, str(e)[:300])
+        if alarm.fired:
+            bad.append({"idx": items[0][0], "what": f"assembly did not terminate within {ASM_BUDGET_S} s", "got": err, "source": src[:3000], "item": items[0][1]})
+            return bad
         expect_error = any(not it["ok"] for _, it in items)
         if expect_error:
             # error expressions are assembled alone: a library exception is the only acceptable outcome
